@@ -459,6 +459,8 @@ def model_checking(ctx):
     zero = [a for a in r.coverage_zero_actions() if a in ("AddDoc", "Start", "Collect", "MergeTwo")]
     if zero:
         raise vlib.ToolError(f"MC_Agg_base: actions never taken: {zero}")
+    # the value-counting variant of the algebra (mirrors finding F14; judges the F13 sub-run) is sound too
+    vlib.mc_check(ctx, "MC_Agg", "MC_Agg_vc.cfg", timeout=300, workers=6)
     if not ctx.quick:
         vlib.mc_check(ctx, "MC_Agg", "MC_Agg_deep.cfg", timeout=600, workers=6)
 
